@@ -32,14 +32,17 @@ EP = 1
 
 def configs(tier):
     # mps / buf: max_packet_size and buffer_size of the endpoint (2*mps-1 is the class default); gap, pace: host timing;
-    # win: which consumer windows are placed inside transactions; clk60: the 60 MHz (ULPI PHY) flavour of USBDevice
+    # win: which consumer windows are placed inside transactions; clk60: the 60 MHz (ULPI PHY) flavour of USBDevice;
+    # ctrl: device with a standard control endpoint next to the OUT endpoint
     def c(mps, buf, depth, win, gap=1, pace=1, **kw): return dict(mps=mps, buf=buf, gap=gap, pace=pace, depth=depth, win=win, **kw)
     if tier == "quick":
         return [c(2, 3, 4, "few"), c(2, 3, 4, "min", gap=12, clk60=1), c(2, 2, 4, "few"), c(2, 4, 4, "min", gap=2), c(2, 6, 4, "min"),
-                c(3, 5, 4, "min"), c(3, 3, 3, "few", pace=2), c(3, 5, 3, "few", gap=12, clk60=1), c(4, 7, 3, "min"), c(2, 3, 3, "sweep")]
+                c(3, 5, 4, "min"), c(3, 3, 3, "few", pace=2), c(3, 5, 3, "few", gap=12, clk60=1), c(4, 7, 3, "min"), c(2, 3, 3, "sweep"),
+                c(2, 3, 4, "min", ctrl=1)]
     return [c(2, 3, 6, "min"), c(2, 3, 5, "few"), c(2, 3, 5, "few", gap=12, clk60=1), c(2, 2, 6, "min"), c(2, 2, 5, "few"), c(2, 4, 5, "few", gap=2),
             c(2, 6, 5, "few"), c(3, 5, 5, "min"), c(3, 3, 5, "min", pace=2), c(3, 6, 5, "min", gap=3), c(3, 9, 5, "min"),
-            c(3, 5, 4, "few", gap=12, clk60=1), c(4, 7, 4, "few"), c(4, 4, 4, "few", pace=8), c(2, 3, 4, "sweep"), c(3, 5, 3, "sweep", gap=12, clk60=1)]
+            c(3, 5, 4, "few", gap=12, clk60=1), c(4, 7, 4, "few"), c(4, 4, 4, "few", pace=8), c(2, 3, 4, "sweep"), c(3, 5, 3, "sweep", gap=12, clk60=1),
+            c(2, 3, 5, "few", ctrl=1), c(3, 5, 4, "few", ctrl=1)]
 
 
 class BulkOutSpec(Spec):
@@ -84,7 +87,9 @@ class BulkOutSpec(Spec):
     def build(self):
         from luna.gateware.usb.usb2.endpoints.stream import USBStreamOutEndpoint
         mk = lambda: USBStreamOutEndpoint(endpoint_number=EP, max_packet_size=self.mps, buffer_size=self.cap)
-        design, h = build_device(control=None, endpoints=[mk], probe=False)
+        # ctrl configurations: the device also carries a standard control endpoint, as every real device does (its SETUP
+        # decoder shares the inter-packet timer with the data receiver); it is never addressed by this host.
+        design, h = build_device(control="standard" if self.cfg.get("ctrl") else None, endpoints=[mk], probe=False)
         ep = h["endpoints"][0]
         if self.cfg.get("clk60"):
             # the configuration USBDevice gives itself behind a ULPI PHY (60 MHz usb domain, inter-packet delays counted
